@@ -247,6 +247,55 @@ def mutualOwn (c : Cfg) (w : World) : Bool :=
 def ownCfgs : List Cfg := allCfgs.filter (fun c => c.pl == .pub || c.pl == .diff)
 def oldCfgs : List Cfg := allCfgs.filter (fun c => !c.newStyle)
 
+/-! ## address changes and churn -/
+
+/-- expected outcome read from the CURRENT hosts of the world (addresses may have changed during the history): each of
+    R (1) and P (2) is in the other's get_peers() of overlay s under the LAN address when they share a box now, else under
+    the WAN address -/
+def mutualDyn (w : World) (s : Nat := 0) : Bool :=
+  match w.hosts[1]?, w.hosts[2]? with
+  | some hR, some hP =>
+    let same := hR.box != 0 && hR.box == hP.box
+    (match w.verifiedAt 1 2 s with | some p => p.v4 == (if same then hP.lan else hP.wan) | none => false) &&
+    (match w.verifiedAt 2 1 s with | some p => p.v4 == (if same then hR.lan else hR.wan) | none => false)
+  | _, _ => false
+
+/-- a boxed host's mapping is renewed (box reboot / mapping timeout): same box and ip, another port, empty filter -/
+def reboot (w : World) (i : Nat) (newPort : Nat) : World :=
+  match w.hosts[i]? with
+  | some h => if h.box != 0 then w.remap i h.box ⟨h.wan.ip, newPort⟩ else w
+  | none => w
+
+/-- P's mapping is renewed after the introducer learned P; P contacts the introducer again from the new mapping; then
+    the script -/
+def scriptIntroducedRemapped (c : Cfg) : World :=
+  let w := reboot (prehistory c) 2 41002
+  let w := if c.newStyle then w.ask 2 0 else w.walk 2 addrI
+  (introduce c w).walkAll 1
+
+/-- R is known to the introducer (and was already handed P's addresses once, without walking); then R's mapping is
+    renewed; then the script: the response must reach, and the puncture must aim at, the new mapping -/
+def scriptRequesterRemapped (c : Cfg) : World :=
+  let w := reboot (introduce c (prehistory c)) 1 41001
+  (introduce c w).walkAll 1
+
+/-- R is known to the introducer and has a WAN estimate; then R ROAMS to another box with another public ip (LAN address
+    kept); then the script.  For placement `same` R leaves the box it shared with P: P's handed-out WAN ip equals R's OLD
+    estimate, so R must adopt the new estimate before classifying the introduction. -/
+def scriptRequesterRoams (c : Cfg) : World :=
+  let w := (introduce c (prehistory c)).remap 1 5 ⟨ipv4 8 8 8 8, 45001⟩
+  (introduce c w).walkAll 1
+
+/-- churn at an introducer without peer limit (max_peers = -1): P's mapping is renewed, the introducer drops P
+    (Network.remove_peer), P walks to it again from the new mapping; then the script -/
+def scriptChurn (c : Cfg) : World :=
+  let w0 := match (setPref (world0 c) 0 [2]).nodes[0]? with
+    | some n => { setPref (world0 c) 0 [2] with nodes := (setPref (world0 c) 0 [2]).nodes.set 0 { n with maxPeers := -1 } }
+    | none => setPref (world0 c) 0 [2]
+  let w := (reboot (prehistoryOn c 0 w0) 2 41002).removePeerAt 0 2
+  let w := if c.newStyle then (w.walk 2 addrI).ask 2 0 else w.walk 2 addrI
+  (introduce c w).walkAll 1
+
 /-! ## more candidates at the introducer -/
 
 /-- further candidates (hosts 3..6): public full-cone, port-restricted behind box 1 (R's box whenever R is boxed),
